@@ -869,10 +869,7 @@ func (em *emitter) emitUnaryOp(expr *ast.UnaryOperator, reg int8, regType reflec
 	}
 
 	// Emit code for the negation of a complex number.
-	if exprKind == reflect.Complex64 || exprKind == reflect.Complex128 {
-		if op != ast.OperatorSubtraction {
-			panic("bug: expected operator subtraction")
-		}
+	if op == ast.OperatorSubtraction && (exprKind == reflect.Complex64 || exprKind == reflect.Complex128) {
 		stackShift := em.fb.currentStackShift()
 		em.fb.enterScope()
 		index := em.fb.complexOperationIndex(ast.OperatorSubtraction, true)
